@@ -82,13 +82,12 @@ Theorem C32_dbus_iface_forgery_refuted :
 Proof. exact dbus_iface_forgery_refuted. Qed.
 Print Assumptions C32_dbus_iface_forgery_refuted.
 
-(* hence the statement for ALL bus histories and schedules is false on this tree *)
-Definition C32_full_statement : Prop :=
-  forall (cf : cfg) (h : list wmsg) (sched : list action), bus_history cf h = true ->
-    let w := run cf h sched in
-    (exists rest, spec_yield cf (w_start w) h = yielded w ++ rest) /\
-    (w_todo w = [] -> drained w -> yielded w = spec_yield cf (w_start w) h).
-
-Theorem C32_full_statement_refuted : ~ C32_full_statement.
+(* hence the statement for ALL bus histories and schedules (Definition C32_full_statement in C32/Witness.v,
+   written out here) is false on this tree *)
+Theorem C32_full_statement_refuted :
+  ~ (forall (cf : cfg) (h : list wmsg) (sched : list action), bus_history cf h = true ->
+       let w := run cf h sched in
+       (exists rest, spec_yield cf (w_start w) h = yielded w ++ rest) /\
+       (w_todo w = [] -> drained w -> yielded w = spec_yield cf (w_start w) h)).
 Proof. exact full_statement_refuted. Qed.
 Print Assumptions C32_full_statement_refuted.
